@@ -4,16 +4,18 @@ import ESV.Src.Ast
 C10 — model of the rejection sites of `ExplorerScriptSsbCompiler.compile` on the static AST: WHERE the real
 compiler raises and WITH WHICH CLASS, in the order in which the real phases run.
 
-  compile(file)                                            ssb_compiler.py
-    is-ssb-script attribute → SsbScript compiler, return   (no imports, no macros, no macros_only check)
-    _resolve_imported_file: every import must resolve      SsbCompilerError "was not found"
+  compile(file) = _compile(...) with RecursionError -> SsbCompilerError            ssb_compiler.py
+    is-ssb-script attribute: macros_only → SsbCompilerError, else SsbScript compiler, return
+    _resolve_imported_file: every import must resolve to a file   SsbCompilerError "was not found"
     per import, in order: path in recursion_check          SsbCompilerError "Infinite recursion"
                           compile(sub, macros_only=True)   whatever the sub-compilation raises
     MacroResolutionOrderVisitor._check_cycles              SsbCompilerError
     MacroVisitor: per macro  visit (add phase) ; collect   (a fresh CompilerCtx: loop / case stacks empty)
-    macros_only: HasRoutinesVisitor().visit(parser.start())  SsbCompilerError — never, see `Cfg.reparseEmpty`
-    RoutineVisitor: per routine  visit (add phase) ; collect
-    strip_last_label: routine[-1] on a routine of labels only   IndexError (not documented)
+    macros_only: HasRoutinesVisitor().visit(tree)          SsbCompilerError "must not contain any routines"
+    RoutineVisitor: per routine  _enlarge_routine_info (0 <= id <= routines so far, else SsbCompilerError) ;
+                    visit (add phase) ; collect: a fixed-point target → SsbCompilerError, then the statements
+    routine_op_offsets_are_ordered                         SsbCompilerError (NOT modelled, see below)
+    strip_last_label / LabelFinalizer                      raise nothing
     OpsLabelJumpToRemover: label without offset            SsbCompilerError "Label … does not exist"
 
 Add phase  = errors raised by `add()` while the handler tree is built (StatementVisitor._push_handler_and_add):
@@ -22,9 +24,9 @@ Collect phase = errors raised by `collect()`, in the order in which the handlers
              (an `if` collects a positive block AFTER the else block, `for` collects its init statement with the
              loop already on the stack, a switch first looks at all case kinds, then collects the bodies, then
              finds the trailing empty case).  The only ValueError of the phase is `ExplorerScriptMacro.build`.
-Not modelled: the back end (op numbering, the `assert routine_op_offsets_are_ordered`, LabelFinalizer), the
-             routine ids, `with`/`for` target kinds, position-mark fractions, `scn` indices, non-branch operations
-             in headers (all SsbCompilerError or found by the exploration part of the check).
+Not modelled: the back end (op numbering, LabelFinalizer); the order check on op offsets (routines written twice /
+             out of id order: SsbCompilerError, the generators write ascending ids), `with`/`for` target words,
+             position-mark fractions, `scn` indices, non-branch operations in headers (all SsbCompilerError).
 Core Lean only.
 -/
 namespace ESV.Static
@@ -256,30 +258,6 @@ def peelN (ms : List Macro) : Nat → List String → List String
 
 def macroCycle (ms : List Macro) : Bool := !(peelN ms ms.length (ms.map fun m => m.name)).isEmpty
 
-/-! ### strip_last_label on a routine that holds labels only -/
-def Stmts.toList : Stmts → List Stmt
-  | .nil => []
-  | .cons s r => s :: r.toList
-
-/-- the expansion of the macro holds labels only (its own labels, the start/end labels of nested calls) -/
-def labelOnly (ms : List Macro) : Nat → List Stmt → Bool
-  | 0, ss => ss.all Stmt.isLabel
-  | f + 1, ss => ss.all fun s => match s with
-    | .label _ => true
-    | .macroCall n _ => match findMacro ms n with
-      | some m => labelOnly ms f m.body.toList
-      | none => false
-    | _ => false
-
-/-- a label written in the routine itself gets a dummy `Return` (`_trailing_labels_need_an_op`), labels copied
-from a macro blueprint do not: a routine made of calls of label-only macros reaches `routine[-1]` empty -/
-def routineOpsFree (ms : List Macro) (body : Stmts) : Bool :=
-  !body.isNil && body.toList.all fun s => match s with
-    | .macroCall n _ => match findMacro ms n with
-      | some m => labelOnly ms ms.length m.body.toList
-      | none => false
-    | _ => false
-
 /-! ### labels: OpsLabelJumpToRemover -/
 /-- the body jumps to a label it does not place itself (labels are private to one macro expansion) -/
 def unserved (body : Stmts) : Bool := (usesOf body).any fun n => !(defsOf body).contains n
@@ -291,7 +269,7 @@ def badMacro (ms : List Macro) : Nat → String → Bool
     | none => false
     | some m => unserved m.body || (callsOf m.body).any (badMacro ms f)
 
-def File.routineBodies (f : File) : List Stmts := f.routines.filterMap id
+def File.routineBodies (f : File) : List Stmts := f.routines.filterMap fun r => r.body
 
 def labelsBad (ms : List Macro) (f : File) : Bool :=
   let placed := f.routineBodies.flatMap defsOf
@@ -301,16 +279,36 @@ def labelsBad (ms : List Macro) (f : File) : Bool :=
 /-! ### one file, given the macros its imports delivered -/
 def File.hasRoutines (f : File) : Bool := !f.routines.isEmpty
 
+def optBody (r : Routine) (g : Stmts → Res) : Res :=
+  match r.body with
+  | some b => g b
+  | none => .ok ()
+
+/-- the id the routine is stored under: the written one, or the previous id + 1 for a coroutine -/
+def Routine.newId (r : Routine) (active : Int) : Int :=
+  match r.id with
+  | some i => i
+  | none => active + 1
+
+/-- RoutineVisitor: `active` = id of the previous routine (−1 at the start), `n` = len(routine_infos) -/
+def routinesGo (env : Env) : Int → Nat → List Routine → Res
+  | _, _, [] => .ok ()
+  | active, n, r :: rest =>
+    let id := r.newId active
+    failIf (decide (id < 0) || decide (id > (n : Int))) .ssbCompilerError >>>            -- _enlarge_routine_info
+      (optBody r (fun b => failIf (!addOkSs env.perf b) .ssbCompilerError) >>>           -- visitChildren: add phase
+        (failIf r.fixedTarget .ssbCompilerError >>>                                      -- for_target_def.py collect
+          (optBody r (fun b => collectSs env false false b) >>>                          -- collect_ops
+            routinesGo env id (if id ≥ (n : Int) then id.toNat + 1 else n) rest)))
+
 def checkRoutines (cfg : Cfg) (ms : List Macro) (f : File) : Res :=
-  checkBodies ⟨cfg.perfVar, ms⟩ f.routineBodies >>>
-    (failIf (f.routineBodies.any (routineOpsFree ms)) (.other "IndexError") >>>
-      failIf (labelsBad ms f) .ssbCompilerError)
+  routinesGo ⟨cfg.perfVar, ms⟩ (-1) 0 f.routines >>> failIf (labelsBad ms f) .ssbCompilerError
 
 def checkLocal (cfg : Cfg) (imported : List Macro) (f : File) (macrosOnly : Bool) : Res :=
   let ms := imported ++ f.macros
   failIf (macroCycle f.macros) .ssbCompilerError >>>
     (checkBodies ⟨cfg.perfVar, ms⟩ (f.macros.map fun m => m.body) >>>
-      (if macrosOnly then failIf (!cfg.reparseEmpty && f.hasRoutines) .ssbCompilerError
+      (if macrosOnly then failIf f.hasRoutines .ssbCompilerError
        else checkRoutines cfg ms f))
 
 /-! ### imports -/
@@ -333,7 +331,7 @@ def checkFile (cfg : Cfg) (w : World) : Nat → List String → String → Bool 
     match w.get? k with
     | none => .error .ssbCompilerError
     | some f =>
-      if f.isSsbScript then .ok []
+      if f.isSsbScript then (if macrosOnly then .error .ssbCompilerError else .ok [])
       else if f.imports.any Option.isNone then .error .ssbCompilerError  -- "The file to import … was not found"
       else
         match importAll (fun s => checkFile cfg w fuel (rc ++ [k]) s true) rc f.imports [] with
@@ -382,7 +380,8 @@ end
 
 def ofCore (p : Src.Program) : File :=
   { macros := p.macros.map fun m => ⟨m.name, m.vars, ofStmts m.body⟩,
-    routines := p.routines.map fun r => r.body.map ofStmts }
+    routines := (List.range p.routines.length).zip p.routines |>.map fun (i, r) =>
+      { id := some (i : Int), body := r.body.map ofStmts } }
 
 /-- static check of a core program (one file, no imports) -/
 def check (p : Src.Program) : Res := checkLocal {} [] (ofCore p) false
